@@ -24,13 +24,18 @@ type hbScript struct {
 	v3      bool
 	v3pings []int // v3: instants at which the client sends a ping
 	sendAt  int   // an application Send at this instant (0 = none)
+	msgAt   []int // the client submits an ordinary message at these instants (no heartbeat meaning)
 }
 
 func (h hbScript) id() string {
-	if h.v3 {
-		return fmt.Sprintf("%s v3 I=%d T=%d pings@%v", h.kind, h.I, h.T, h.v3pings)
+	m := ""
+	if len(h.msgAt) > 0 {
+		m = fmt.Sprintf(" msg@%v", h.msgAt)
 	}
-	return fmt.Sprintf("%s v4 I=%d T=%d delays=%v extra=%v send@%d", h.kind, h.I, h.T, h.delays, h.extra, h.sendAt)
+	if h.v3 {
+		return fmt.Sprintf("%s v3 I=%d T=%d pings@%v%s", h.kind, h.I, h.T, h.v3pings, m)
+	}
+	return fmt.Sprintf("%s v4 I=%d T=%d delays=%v extra=%v send@%d%s", h.kind, h.I, h.T, h.delays, h.extra, h.sendAt, m)
 }
 
 type hbOutcome struct {
@@ -252,6 +257,18 @@ func hbBody(h hbScript) vsched.Body {
 			at := time.Duration(e) * hbUnit
 			vsched.GoNamed("v3-ping", func() { vsched.SleepUntil(at); sendPing() })
 		}
+		for _, e := range h.msgAt {
+			at := time.Duration(e) * hbUnit
+			vsched.GoNamed("client-msg", func() {
+				vsched.SleepUntil(at)
+				if s.pc != nil {
+					r := s.pc.Post([]Pkt{Msg("m")})
+					r.Wait()
+				} else {
+					s.ws.SendPkt(Msg("m"))
+				}
+			})
+		}
 		if h.sendAt > 0 {
 			at := time.Duration(h.sendAt) * hbUnit
 			vsched.GoNamed("app-send", func() {
@@ -295,10 +312,7 @@ func pipeObj(p *Pipe) uintptr { return uintptrOf(p) }
 func init() {
 	gen := func(thorough bool) []hbScript {
 		var out []hbScript
-		cfgs := [][2]int{{2, 1}, {3, 2}}
-		if thorough {
-			cfgs = append(cfgs, [2]int{2, 3})
-		}
+		cfgs := [][2]int{{2, 1}, {3, 2}, {2, 3}} // the last one: timeout longer than the interval
 		for _, kind := range []string{"polling", "websocket"} {
 			for _, c := range cfgs {
 				I, T := c[0], c[1]
@@ -344,6 +358,12 @@ func init() {
 					}
 				}
 				out = append(out, hbScript{I: I, T: T, kind: kind, v3: true})
+				// ordinary client traffic does not count as a heartbeat
+				out = append(out, hbScript{I: I, T: T, kind: kind, v3: true, v3pings: []int{1}, msgAt: []int{2}})
+				out = append(out, hbScript{I: I, T: T, kind: kind, v3: true, v3pings: []int{1}, msgAt: []int{I + T}})
+				out = append(out, hbScript{I: I, T: T, kind: kind, v3: true, msgAt: []int{1, I + T - 1}})
+				out = append(out, hbScript{I: I, T: T, delays: []int{-1}, kind: kind, msgAt: []int{I}})
+				out = append(out, hbScript{I: I, T: T, delays: []int{0, -1}, kind: kind, msgAt: []int{I + 1, 2*I + 1}})
 			}
 		}
 		return out
